@@ -1504,6 +1504,9 @@ let suite_race t v =
    | "ready" ->
        (* received = 0: the recovered file is still waiting for / under validation *)
        if fi "began" = 1 && (fi "full_at_ready" = 1 || fi "state_at_ready" = 0) then oracle v "ready_before_recovery_finished" false
+   | "hold" ->
+       (* a held file whose predecessor is in the receive log (days back) comes out after a bounded number of re-examinations *)
+       if fi "delivered" = 0 then oracle v "held_file_never_released_although_predecessor_logged" false
    | "late" ->
        (* whatever is put away or held under the name after a stalled duplicate came back is the announced content *)
        (* recorded finding C01-F2: the scenario is built to exhibit it ("predicted") *)
